@@ -42,6 +42,16 @@ type H struct {
 	nscript int      // container scripts run so far (fresh variable names)
 	ccases  []string // Coq cases for C34.ContModel
 	cquota  int
+	nTick   int // calls since start, see tick
+}
+
+// tick keeps the watchdog beating inside the long operand loops (thorough: >100000 operand pairs per method, each a
+// separate call into gomacro): the watchdog limit bounds a stretch of 4096 calls, not a whole method sweep.
+func (h *H) tick(what string) {
+	h.nTick++
+	if h.nTick&0xfff == 0 {
+		h.wd.Beat(what)
+	}
 }
 
 func (h *H) eval(src string) (v interface{}, errs string) {
@@ -206,6 +216,7 @@ func intKind[T Int](h *H, kind string, bits int, signed bool) {
 		}
 		op := bin[m]
 		for i, p := range pairs {
+			h.tick(kind + " operand sweep")
 			z := T(h.rng.U64())
 			want, wp := call(func() T { return op(p.a, p.b) })
 			got, gp := call(func() T { return fr(z, p.a, p.b) })
@@ -241,6 +252,7 @@ func intKind[T Int](h *H, kind string, bits int, signed bool) {
 		}
 		n := 0
 		for _, a := range append(append([]T{}, bnd...), T(h.rng.U64()), T(h.rng.U64()), T(h.rng.U64())) {
+			h.tick(kind + " operand sweep")
 			for c := 0; c < 256; c++ {
 				if c > bits+2 && c < 250 && c%37 != 0 {
 					continue
@@ -285,6 +297,7 @@ func intKind[T Int](h *H, kind string, bits int, signed bool) {
 			vals = append(vals, T(h.rng.U64()))
 		}
 		for i, a := range vals {
+			h.tick(kind + " operand sweep")
 			want := -a
 			if m == "Not" {
 				want = ^a
@@ -314,6 +327,7 @@ func intKind[T Int](h *H, kind string, bits int, signed bool) {
 			continue
 		}
 		for i, p := range pairs {
+			h.tick(kind + " operand sweep")
 			want := p.a == p.b
 			if m == "Less" {
 				want = p.a < p.b
@@ -343,6 +357,7 @@ func intKind[T Int](h *H, kind string, bits int, signed bool) {
 			h.fail(kind, m, "lookup", e1+e2, fmt.Sprintf("%T / %T", raw, wrapped), "func(T,T) int")
 		} else {
 			for i, p := range pairs {
+				h.tick(kind + " operand sweep")
 				want := 0
 				if p.a < p.b {
 					want = -1
@@ -425,7 +440,9 @@ func floatKind[T Float](h *H, kind string) {
 			continue
 		}
 		for i, a := range vals {
+			h.tick(kind + " operand sweep")
 			for j, b := range vals {
+				h.tick(kind + " operand sweep")
 				want := bin[m](a, b)
 				if got := fr(b, a, b); fbits(got) != fbits(want) {
 					h.fail(kind, m, "method value", []string{fmt.Sprintf("%#x", fbits(a)), fmt.Sprintf("%#x", fbits(b))}, fmt.Sprintf("%#x", fbits(got)), fmt.Sprintf("%#x", fbits(want)))
@@ -446,6 +463,7 @@ func floatKind[T Float](h *H, kind string) {
 			h.fail(kind, "Neg", "lookup", "", fmt.Sprintf("%T", raw), "func(T,T) T")
 		} else {
 			for _, a := range vals {
+				h.tick(kind + " operand sweep")
 				if got, want := fr(a, a), -a; fbits(got) != fbits(want) {
 					h.fail(kind, "Neg", "method value", fmt.Sprintf("%#x", fbits(a)), fmt.Sprintf("%#x", fbits(got)), fmt.Sprintf("%#x", fbits(want)))
 				}
@@ -462,7 +480,9 @@ func floatKind[T Float](h *H, kind string) {
 			continue
 		}
 		for _, a := range vals {
+			h.tick(kind + " operand sweep")
 			for _, b := range vals {
+				h.tick(kind + " operand sweep")
 				want := a == b
 				if m == "Less" {
 					want = a < b
@@ -481,7 +501,9 @@ func floatKind[T Float](h *H, kind string) {
 			h.fail(kind, "Cmp", "lookup", "", fmt.Sprintf("%T", raw), "func(T,T) int")
 		} else {
 			for _, a := range vals {
+				h.tick(kind + " operand sweep")
 				for _, b := range vals {
+					h.tick(kind + " operand sweep")
 					want := 0
 					if a < b {
 						want = -1
@@ -534,7 +556,9 @@ func complexKind[T Complex, P Float](h *H, kind string, mk func(re, im float64) 
 			continue
 		}
 		for i, a := range vals {
+			h.tick(kind + " operand sweep")
 			for j, b := range vals {
+				h.tick(kind + " operand sweep")
 				if !h.a.Thorough() && (i*7+j)%5 != 0 {
 					continue
 				}
@@ -553,7 +577,9 @@ func complexKind[T Complex, P Float](h *H, kind string, mk func(re, im float64) 
 			h.fail(kind, "Equal", "lookup", "", fmt.Sprintf("%T", raw), "func(T,T) bool")
 		} else {
 			for _, a := range vals {
+				h.tick(kind + " operand sweep")
 				for _, b := range vals {
+					h.tick(kind + " operand sweep")
 					if got, want := fr(a, b), a == b; got != want {
 						h.fail(kind, "Equal", "method value", fmt.Sprint(cbits(a), cbits(b)), got, want)
 					}
@@ -569,6 +595,7 @@ func complexKind[T Complex, P Float](h *H, kind string, mk func(re, im float64) 
 			h.fail(kind, "Neg", "lookup", "", fmt.Sprintf("%T", raw), "func(T,T) T")
 		} else {
 			for _, a := range vals {
+				h.tick(kind + " operand sweep")
 				if got, want := fr(a, a), -a; cbits(got) != cbits(want) {
 					h.fail(kind, "Neg", "method value", fmt.Sprint(cbits(a)), fmt.Sprint(cbits(got)), fmt.Sprint(cbits(want)))
 				}
@@ -585,6 +612,7 @@ func complexKind[T Complex, P Float](h *H, kind string, mk func(re, im float64) 
 			continue
 		}
 		for _, a := range vals {
+			h.tick(kind + " operand sweep")
 			want := re(a)
 			if m == "Imag" {
 				want = im(a)
